@@ -98,6 +98,10 @@ Next ==
           /\ OnM("rebuild")
           /\ Rebuild(g)
           /\ act' = [op |-> "rebuild", g |-> g]
+    \/ \E g \in Regs :
+          /\ OnM("relookup")
+          /\ Relookup(g)
+          /\ act' = [op |-> "relookup", g |-> g]
     \/ \E c \in RBaseChoices :
           /\ OnM("regbases")
           /\ SetRegBases(c[1], c[2])
@@ -281,5 +285,10 @@ SBaseChoicesAnc == {<<2, <<>> >>, <<2, <<1>> >>}
 \* ---- a chain whose TOP gets a new base (C06/C07): 1 top, 2(1), 3(2), 4 extra
 RB_Chain3Extra == << <<>>, <<1>>, <<2>>, <<>> >>
 RBaseChoicesTop == {<<1, <<>> >>, <<1, <<4>> >>, <<2, <<1>> >>, <<2, <<>> >>}
+\* ---- class declarations only (C05): 1 = implementedBy(A), 2 = implementedBy(B)
+\* based on it or not; the interface part of every order is (Interface,)
+RegKeysDecl == {<< <<1>>, 1, "" >>}
+SubKeysDecl == {<< <<1>>, 1 >>}
+LookKeysDecl == {<< <<2>>, 1 >>}
 None == {}
 =============================================================================
